@@ -244,3 +244,75 @@ func VP_C08_GateLemma() {
 	// (Y/dd - u) <= (L/1e18 + u) * (X/dd + u), u = 1e-18, cleared of denominators
 	zzvp.Assert(L.Add(zzvp.ZN(1)).Mul(X.Mul(e18).Add(dd)).GTE(Y.Mul(e18).Sub(dd).Mul(e18)), "debt-value<=collateral-value*ltv+rounding")
 }
+
+// Lend (a new position): the position is created with everything available to borrow, the published total lent and the
+// pool's custody grow by the lent amount, receipt tokens for exactly that amount are minted to the lender.
+func VP_C08_Lend() {
+	// "does the lender already have a position for this asset" walks a whole table: contract stubs (any answer); the
+	// obligation below is about the answer "no" (a fresh position), recognised by the id counter having moved
+	k, ctx := vpLendWorldWith("HasLendForAddressByAsset", "GetLendIDForAssetIDPoolID")
+	var ak assetkeeper.Keeper
+	zzvp.Wire(&ak)
+	msg := types.MsgLend{Lender: zzvp.AnyString(), AssetId: zzvp.AnyUint64(), Amount: vpAnyCoin(), PoolId: zzvp.AnyUint64(), AppId: zzvp.AnyUint64()}
+	zzvp.Assume(msg.ValidateBasic() == nil)
+	pool, _ := k.GetPool(ctx, msg.PoolId)
+	stats0, _ := k.GetAssetStatsByPoolIDAndAssetID(ctx, msg.PoolId, msg.AssetId)
+	zzvp.Assume(stats0.PoolID == msg.PoolId && stats0.AssetID == msg.AssetId)
+	counter := k.GetUserLendIDCounter(ctx)
+	zzvp.Assume(counter < 1<<63)
+	vpNotAModule(msg.Lender, pool.ModuleName)
+	vpReceiptTokenIsAnotherDenom(k, ak, ctx, msg.AssetId)
+	rates, _ := k.GetAssetRatesParams(ctx, msg.AssetId)
+	cAsset, _ := ak.GetAsset(ctx, rates.CAssetID)
+	lender, _ := sdk.AccAddressFromBech32(msg.Lender)
+	zzvp.Mark()
+	_, err := NewMsgServerImpl(k).Lend(sdk.WrapSDKContext(ctx), &msg)
+	if err != nil {
+		return
+	}
+	if k.GetUserLendIDCounter(ctx) == counter {
+		return // an existing position was topped up: VP_C08_Deposit
+	}
+	zzvp.Reach("lend-succeeded")
+	zzvp.Assert(k.GetUserLendIDCounter(ctx) == counter+1, "id-counter-moves-by-one")
+	l1, found := k.GetLend(ctx, counter+1)
+	zzvp.Assert(zzvp.And(found, l1.Owner == msg.Lender, l1.AssetID == msg.AssetId, l1.PoolID == msg.PoolId, l1.AppID == msg.AppId), "new-position-stored-under-the-next-id")
+	zzvp.Assert(l1.AvailableToBorrow.Equal(msg.Amount.Amount) && l1.AmountIn.Amount.Equal(msg.Amount.Amount), "everything-lent-is-available-to-borrow")
+	stats1, _ := k.GetAssetStatsByPoolIDAndAssetID(ctx, msg.PoolId, msg.AssetId)
+	zzvp.Assert(stats1.TotalLend.Sub(stats0.TotalLend).Equal(msg.Amount.Amount), "published-lent-moves-with-the-position")
+	zzvp.Assert(stats1.TotalBorrowed.Equal(stats0.TotalBorrowed) && stats1.TotalStableBorrowed.Equal(stats0.TotalStableBorrowed), "published-borrowed-untouched-by-a-lend")
+	zzvp.Assert(zzvp.BalanceDelta(zzvp.ModuleAddr(pool.ModuleName), msg.Amount.Denom).Equal(msg.Amount.Amount), "pool-receives-exactly-the-lent-amount")
+	zzvp.Assert(zzvp.BalanceDelta(lender, cAsset.Denom).Equal(msg.Amount.Amount) && zzvp.SupplyDelta(cAsset.Denom).Equal(msg.Amount.Amount), "receipt-tokens-for-exactly-the-lent-amount")
+}
+
+// CloseLend: only a position without open borrows can be closed; it pays out exactly what is available to borrow, the
+// published total falls by the same amount and the position is gone.
+func VP_C08_CloseLend() {
+	k, ctx := vpLendWorldWith()
+	var ak assetkeeper.Keeper
+	zzvp.Wire(&ak)
+	msg := types.MsgCloseLend{Lender: zzvp.AnyString(), LendId: zzvp.AnyUint64()}
+	zzvp.Assume(msg.ValidateBasic() == nil)
+	l, _ := k.GetLend(ctx, msg.LendId)
+	zzvp.Assume(l.ID == msg.LendId)
+	pool, _ := k.GetPool(ctx, l.PoolID)
+	stats0, _ := k.GetAssetStatsByPoolIDAndAssetID(ctx, l.PoolID, l.AssetID)
+	zzvp.Assume(stats0.PoolID == l.PoolID && stats0.AssetID == l.AssetID)
+	mapping, _ := k.GetUserLendBorrowMapping(ctx, l.Owner, msg.LendId)
+	vpNotAModule(msg.Lender, pool.ModuleName)
+	vpReceiptTokenIsAnotherDenom(k, ak, ctx, l.AssetID)
+	asset, _ := ak.GetAsset(ctx, l.AssetID)
+	zzvp.Assume(l.AmountIn.Denom == asset.Denom) // record coherence: a position is denominated in its asset
+	zzvp.Mark()
+	_, err := NewMsgServerImpl(k).CloseLend(sdk.WrapSDKContext(ctx), &msg)
+	if err != nil {
+		return
+	}
+	zzvp.Reach("close-lend-succeeded")
+	zzvp.Assert(len(mapping.BorrowId) == 0, "a-position-with-open-borrows-is-not-closed")
+	_, still := k.GetLend(ctx, msg.LendId)
+	zzvp.Assert(!still, "closed-position-is-removed")
+	stats1, _ := k.GetAssetStatsByPoolIDAndAssetID(ctx, l.PoolID, l.AssetID)
+	zzvp.Assert(stats1.TotalLend.Sub(stats0.TotalLend).Equal(l.AvailableToBorrow.Neg()), "published-lent-falls-by-what-was-available")
+	zzvp.Assert(zzvp.BalanceDelta(zzvp.ModuleAddr(pool.ModuleName), l.AmountIn.Denom).Equal(l.AvailableToBorrow.Neg()), "pool-pays-exactly-what-was-available")
+}
